@@ -220,6 +220,33 @@ def extra_obligations(mods, tier, seed):
     unsafe = [b for b in sorted(A | B) if not re.fullmatch(r"[A-Za-z0-9_]+", m._sanitize_env_name(b))]
     ob("sanitize/env-names-ini-safe", not unsafe, "env name of every registered board matches [A-Za-z0-9_]+ (exhaustive)", t0,
        {"bad": unsafe[:10]})
+    # the real validate_platform_board over the whole registry (exhaustive, executed): every registered pair returns normally, every
+    # registered board under the other platform and a handful of unregistered ids raise ValueError
+    t0 = time.time()
+    wrong = []
+    for b in sorted(A | B):
+        good = "atmelmegaavr" if b in B else "atmelavr"
+        for plat in ("atmelavr", "atmelmegaavr"):
+            try:
+                m.validate_platform_board(plat, b)
+                res = "accepted"
+            except ValueError:
+                res = "refused"
+            except Exception as ex:
+                res = f"{type(ex).__name__}: {ex}"
+            if res != ("accepted" if plat == good else "refused"):
+                wrong.append({"platform": plat, "board": b, "observed": res})
+    for b in ("not-a-board", "", "UNO", "uno ", "uno\n", "nano_every2"):
+        for plat in ("atmelavr", "atmelmegaavr", "espressif32", ""):
+            try:
+                m.validate_platform_board(plat, b)
+                wrong.append({"platform": plat, "board": b, "observed": "accepted (unregistered)"})
+            except ValueError:
+                pass
+            except Exception as ex:
+                wrong.append({"platform": plat, "board": b, "observed": f"{type(ex).__name__}: {ex}"})
+    ob("registry/validate-accepts-exactly-the-registered-pairs", not wrong,
+       f"validate_platform_board executed on all {2 * len(A | B)} (platform, registered board) pairs and 24 unregistered pairs: accepted iff registered", t0, {"wrong": wrong[:6]})
     _ini_readback(m, tier, seed, out, ob)
     _regenerate_and_frame(m, out)
     return out
@@ -268,7 +295,13 @@ def _ini_readback(m, tier, seed, out, ob):
                 given = iter(list(libs))
             elif libs is not None and runs % 3 == 2:
                 given = (x for x in list(libs)) if runs % 2 else tuple(libs)
-            m.write_project(d, src, port, platform=plat, board=board, lib_deps=given)
+            try:
+                m.write_project(d, src, port, platform=plat, board=board, lib_deps=given)
+            except ValueError as ex:
+                runs += 1
+                fails.append({"port": port, "libs": libs, "board": board, "problem": f"a registered pair ({plat}, {board}) was refused: {ex}"})
+                shutil.rmtree(d, ignore_errors=True)
+                continue
             runs += 1
             after = sorted(str(p.relative_to(d)) for p in d.rglob("*"))
             cp = configparser.RawConfigParser()
